@@ -42,7 +42,7 @@ TEXT = {
          "contract-based deductive verification (Verus) of the real run loop (statement-level extraction), the error arms of parse_and_evaluate (arm-level) and exit_status_in_case_of_error"),
  "C17": ("other", "4.12", "PARTIAL (de-duplication clause): Verus proves on the real Resolver::inlining_pass that importing an already imported module changes nothing (no module is read, the import list is unchanged, the program is inlined to exactly its non-import statements in order), that the import list only grows, that a module is registered before its own imports are inlined, and that UnknownModule names a module the importer does not know. Success of every standard-library import and order-independence of the resulting definitions are not covered.",
          "contract-based deductive verification (Verus) of the real inlining_pass (loop invariant over the statement list) and resolve"),
- "C07": ("other", "4.13", "PARTIAL (two mechanisms): Verus proves that the real SessionHistory::save_inner writes exactly the successful inputs, one line each, in order (so a replay of the saved file replays exactly those), and that the last-result identifiers denote the value of the most recent top-level expression statement regardless of how statements are grouped into inputs (Return / GetLastResult arms of the VM). Agreement of incremental, batched and replayed sessions in general, and independence of a copied session, are not covered.",
+ "C07": ("other", "4.8 / 4.13", "PARTIAL (two mechanisms): Verus proves that the real SessionHistory::save_inner writes exactly the successful inputs, one line each, in order (so a replay of the saved file replays exactly those), and that the last-result identifiers denote the value of the most recent top-level expression statement regardless of how statements are grouped into inputs (Return / GetLastResult arms of the VM). Agreement of incremental, batched and replayed sessions in general, and independence of a copied session, are not covered.",
          "contract-based deductive verification (Verus) of the real save_inner (loop invariant against a recursive spec function) and of the VM's last-result arms"),
  "C09": ("other", "4.6 / 4.8", "PARTIAL: Verus proves (i) layout and little-endian round-trip contracts on the real Vm::{push_u16, add_op*, patch_u16_value_at, read_byte, read_u16}; (ii) per-arm layout contracts for 14 arms of compile_expression (identifier resolution = innermost binding, operator mapping and operand order, conditionals with their two jumps, lists / call arguments / struct fields / string parts in source resp. definition order, calls, function values, field access, constants) and the DefineFunction / expression-statement / procedure-call arms of compile_statement plus compile_define_variable (scope = parameters ++ where-variables while the body is compiled); (iii) whole-stack postconditions for about 20 arms of the VM run loop (jumps, logic, comparison, arithmetic, variables and upvalues, last result, constants, calls and returns, calls through function values, struct construction and field access, list literals, marshalling of foreign-call arguments, procedure calls) plus lemmas tying (ii) and (iii) together; (iv) BytecodeInterpreter::run touches the VM only through Vm::run. Not covered: unit-identifier / unit-definition arms, JoinString, Power / Factorial / date-time arms and the result handling of foreign FUNCTION calls, the dispatch loop itself; compile_expression at its recursive call sites is an assumed contract.",
          "contract-based deductive verification (Verus): arm-level extraction of the real compiler and VM match arms, layout/stack postconditions and lemmas"),
